@@ -322,9 +322,21 @@ def sh4_bracket(ctx: Ctx):
         ctx.functions.add(pfi.qual)
     methods = model.methods("_url", "URL")
     funcs = [fi for fi in model.all_funcs() if fi.module == "_url" and (not fi.cls or fi.cls == "URL")]
-    judged = 0
+    judged = others = 0
     for fi in funcs:
         stores, always, _r = cache_stores(model, fi)
+        stores = {k: list(v) for k, v in stores.items()}
+        # ... and entries written in the dict display the cache starts from (`self._cache = {"raw_host": ..., ...}`)
+        for e in analyze(model, fi).by_kind("store_attr"):
+            if e.attr != "_cache":
+                continue
+            t = e.value
+            while t is not None and t[0] == "mut":
+                t = t[1]
+            if t is not None and t[0] == "dict":
+                for kk, vv in t[1]:
+                    if kk == ("const", "raw_host"):
+                        stores.setdefault("raw_host", []).append((vv, e.state, None))
         if "raw_host" not in stores:
             continue
         if fi.cls and "raw_host" in always and fi.name != "raw_host" and not fi.name.startswith("__") and \
@@ -336,6 +348,12 @@ def sh4_bracket(ctx: Ctx):
             stripped = v[0] == "sub" and v[2] == ("slice", ("const", 1), ("const", -1), ("const", None))
             core = v[1] if stripped else v
             if not (core[0] == "call" and core[1] in producers):
+                if ("other", show(v)[:40]) not in seen:
+                    seen.add(("other", show(v)[:40]))
+                    others += 1
+                    ctx.instance(rule)
+                    ctx.ob(rule, fi.qual, f"cache['raw_host'] = {show(v)[:50]}", True, where=where(fi, fi.node),
+                           sample="not the encoder's result as it is: left to SH4 (shape / assembly rules)", nontrivial=False)
                 continue
             arg = core[2][0] if core[2] else None
             has = truth(("cmp", "In", ("const", "["), core), st.facts)
@@ -368,8 +386,8 @@ def sh4_bracket(ctx: Ctx):
                    f"raw_host is pre-filled with a value that keeps the brackets of an IPv6 literal ({verdict[1]}): the lazy definition "
                    "(split_netloc) never has them, so an unpickled copy disagrees and host_subcomponent brackets it twice",
                    where(fi, fi.node), sample="'[' in host decides between host[1:-1] and host")
-    if not judged:
-        raise AnalysisError("SH4-BRACKET: no pre-filled raw_host entry comes from the host encoder (anchor vanished)")
+    if not judged and not others:
+        raise AnalysisError("SH4-BRACKET: no pre-filled raw_host entry found outside the lazy filler (anchor vanished)")
 
 
 _PQ_EXAMPLES = (
